@@ -16,12 +16,15 @@ def draw(rng, maxsites=6, sigmas=(0.3, 1., 3.), maxjumps=300, hostile=False, nee
     inv = gen.invmap(sl, N)
     sigma = float(rng.choice(sigmas))
     pre, bE, preT, bET = gen.rand_thermo_interstitial(rng, len(sl), len(jn), sigma)
+    # absolute rate scale: ordinary low-temperature data have barriers of 20-40 kT, i.e. rates of 1e-9 .. 1e-18
+    shift = float(rng.choice([0., 0., 12., 25., 40.]))
+    bET = bET + shift
     if hostile:
         # rate ratios up to 1e+-12 between jump classes / sites
         bET = bET + rng.uniform(-14, 14, size=len(jn))
         bE = bE + rng.uniform(-6, 6, size=len(sl))
     return {'crys': crys, 'spec': spec, 'chem': chem, 'cutoff': cutoff, 'jn': jn, 'sl': sl, 'inv': inv, 'N': N,
-            'pre': pre, 'bE': bE, 'preT': preT, 'bET': bET, 'sigma': sigma,
+            'pre': pre, 'bE': bE, 'preT': preT, 'bET': bET, 'sigma': sigma, 'shift': shift,
             'desc': {'kind': spec['kind'], 'lattice': crys.lattice, 'basis': crys.basis, 'chem': chem, 'cutoff': cutoff,
                      'pre': pre, 'bE': bE, 'preT': preT, 'bET': bET}}
 
